@@ -177,6 +177,61 @@ def rule_sethash(ctx: Ctx, rels: List[str]) -> None:
         raise AnalysisError("order.sethash: nothing analysed")
 
 
+# --------------------------------------------------------------------------- effect.shared-default
+
+
+def rule_shared_default(ctx: Ctx) -> None:
+    """effect.shared-default: the solvers take their settings object from a default argument that is an *instance* created once, when the
+    class body is executed (`solver_setting=EvolutionarySolverSetting()`), so every solver built without explicit settings shares it.
+    A solver may read it; writing to it (setattr / attribute store on the parameter or on the attribute it was stored under) reconfigures
+    every later default-configured solver — the same class, arguments and seed then give a different run."""
+    repo = ctx.repo
+    n = 0
+    for rel in (SB, EVO, HYB):
+        m = repo.module(rel)
+        for ci in [c for lst in repo.classes.values() for c in lst if c.module.rel == rel]:
+            init = ci.methods().get("__init__")
+            if init is None:
+                continue
+            ps = init.args.args
+            defaults = dict(zip([a.arg for a in ps][len(ps) - len(init.args.defaults):], init.args.defaults))
+            shared = {p_ for p_, d in defaults.items() if isinstance(d, ast.Call)}
+            if not shared:
+                continue
+            n += 1
+            ctx.touch(m, init)
+            # names / attributes the shared object is reachable under inside the class
+            holders = set(shared)
+            for a in ast.walk(init):
+                if isinstance(a, ast.Assign) and isinstance(a.value, ast.Name) and a.value.id in shared:
+                    for t in a.targets:
+                        holders.add(norm(t))
+            bad = None
+            for fn in ci.methods().values():
+                for x in ast.walk(fn):
+                    if isinstance(x, ast.Call) and isinstance(x.func, ast.Name) and x.func.id == "setattr" and x.args and norm(x.args[0]) in holders:
+                        bad = (fn, x)
+                    elif isinstance(x, (ast.Assign, ast.AugAssign)):
+                        for t in (x.targets if isinstance(x, ast.Assign) else [x.target]):
+                            if isinstance(t, ast.Attribute) and norm(t.value) in holders and fn is init:
+                                bad = (fn, x)
+                    if bad:
+                        break
+                if bad:
+                    break
+            if bad:
+                fn, x = bad
+                ctx.fail("effect.shared-default", m, x,
+                         f"{ci.name}.{fn.name} writes to the settings object (`{short(x, 70)}`), which is the single default instance of "
+                         f"`{sorted(shared)[0]}=...()` whenever the caller passed none: one solver built this way reconfigures every later solver that "
+                         f"relies on the defaults, so a fixed seed no longer reproduces a run", func=f"{ci.name}.{fn.name}",
+                         construct=f"{ci.name}: writes to the shared default settings instance")
+            else:
+                ctx.ok("effect.shared-default", m, init, what=f"{ci.name}: default settings instance {sorted(shared)} only read")
+    if n == 0:
+        raise AnalysisError("effect.shared-default: no constructor with an instance default found")
+
+
 # --------------------------------------------------------------------------- D3 effect.hof-copy
 
 
@@ -217,12 +272,35 @@ def rule_hof_copy(ctx: Ctx) -> None:
                      func="RandomSearchSolver.update_hof", construct="update_hof: insert not followed by pop; break")
     fn = repo.anchor(SB, "RandomSearchSolver.tournament_selection")
     ctx.touch(m, fn)
-    for c in [c for c in calls_in(fn) if call_attr(c) == "append" and "population" in norm(c.func.value)]:
-        if _is_copy(c.args[0]):
-            ctx.ok("effect.hof-copy", m, c)
-        else:
-            ctx.fail("effect.hof-copy", m, c, f"`{short(c)}`: the next population shares circuit objects with the previous one (a circuit "
-                                              f"selected twice would be mutated twice in place)", func="RandomSearchSolver.tournament_selection")
+    # the list that is returned (whatever it is called) holds one *separately made* copy per selected member: a member may win several
+    # tournaments, and copy.deepcopy of the whole list keeps repeated elements shared (its memo maps one object to one copy)
+    pop_param = func_params(fn)[1]
+    n_ret = 0
+    for r in [x for x in ast.walk(fn) if isinstance(x, ast.Return) and x.value is not None]:
+        v = r.value
+        whole_copy = None
+        if _is_copy(v) and v.args and isinstance(v.args[0], ast.Name):
+            whole_copy, v = r.value, v.args[0]
+        if not isinstance(v, ast.Name) or v.id == pop_param:
+            continue
+        n_ret += 1
+        apps = [c for c in calls_in(fn) if call_attr(c) == "append" and norm(c.func.value) == v.id and c.args]
+        if not apps:
+            raise AnalysisError(f"tournament_selection: how `{v.id}` is filled was not recognised")
+        for c in apps:
+            if _is_copy(c.args[0]):
+                ctx.ok("effect.hof-copy", m, c)
+            elif whole_copy is not None:
+                ctx.fail("effect.hof-copy", m, whole_copy,
+                         f"tournament_selection collects the winners uncopied (`{short(c)}`) and returns `{short(whole_copy)}`: deepcopy maps one object to one "
+                         f"copy, so a member that won two tournaments comes back as *one* shared (score, circuit) pair; the next generation mutates it twice "
+                         f"in place and the earlier slot keeps a score that no longer belongs to its circuit", func="RandomSearchSolver.tournament_selection",
+                         construct="tournament_selection: one deepcopy of the whole winners list")
+            else:
+                ctx.fail("effect.hof-copy", m, c, f"`{short(c)}`: the next population shares circuit objects with the previous one (a circuit "
+                                                  f"selected twice would be mutated twice in place)", func="RandomSearchSolver.tournament_selection")
+    if n_ret == 0:
+        raise AnalysisError("tournament_selection: no returned new population found")
     # a population seeded from the user's circuit holds copies
     em = repo.module(EVO)
     fn = repo.anchor(EVO, "EvolutionarySolver.population_initialization")
